@@ -172,7 +172,7 @@ func c12Worker(w *W) {
 				for i := 0; i < k; i++ {
 					s := fmt.Sprintf("s%s%d", name, i)
 					lg.Sinks = append(lg.Sinks, s)
-					lv := []string{"", "ERROR", "INFO~WARN", "fatal", ""}[r.IntN(5)]
+					lv := []string{"", "ERROR", "INFO~WARN", "fatal", "", "MAX", "warn~warn", "ERROR~INFO"}[r.IntN(8)]
 					lg.Levels = append(lg.Levels, lv)
 					cfg["appender."+s+".type"] = "VRec"
 					if lg.Slow && i == 0 {
@@ -400,7 +400,7 @@ func c12Worker(w *W) {
 func init() {
 	register(&Prop{
 		ID: "C12", Level: "exploration", MinDistinct: 20, Worker: c12Worker,
-		Rule: "four named handles (obtained twice each before any Refresh) are bound by generated configurations to sync loggers, async loggers (Block, buffer 100/1000, optionally behind a slow appender) with 1-3 recording appenders whose references carry level settings \"\", ERROR, INFO~WARN, fatal, to Console/File/RollingFile logger kinds (sync, async, separate) or to the built-in root; " +
+		Rule: "four named handles (obtained twice each before any Refresh) are bound by generated configurations to sync loggers, async loggers (Block, buffer 100/1000, optionally behind a slow appender) with 1-3 recording appenders whose references carry level settings \"\", ERROR, INFO~WARN, fatal, MAX, warn~warn (empty), ERROR~INFO (inverted), to Console/File/RollingFile logger kinds (sync, async, separate) or to the built-in root; " +
 			"1-8 concurrent writers each own ONE buffer, fill it with a self-describing payload (empty body, 1 B, binary with NUL/newlines, multi-line, up to 1 MiB), snapshot length+CRC, call Write and overwrite the buffer with 'Z' immediately after Write returns. Oracle after Destroy: every appender of the addressed logger holds every payload exactly once with the snapshot taken at call time, per-writer call order preserved, Write returned (len,nil); nothing arrives elsewhere. " +
 			"A separate process checks that Refresh fails when a requested name is not configured. The race build repeats the runs (harness overwrite vs library read is a library race). Non-trivial/distinct = distinct (logger kinds and sink counts of the four handles, writers) tuples that matched.",
 		Assumptions: []string{"payload streams in files are parsed by their self-describing headers (each raw write is one O_APPEND write)"},
